@@ -169,6 +169,95 @@ Section Accounts.
       + split; [exact L4 | right; apply same_refl].
   Qed.
 
+  (* ---- recovery finishes an interrupted move ---- *)
+  Variable name_of : bytes -> bytes.
+  Notation well_named := (well_named key_of live name_of).
+  Notation recover1 := (recover1 key_of name_of).
+
+  Definition u1 (s : fs) (fold : bytes) : fs := <[tmp_of fold := []]> s.
+  Definition u2 (s : fs) (fold data : bytes) : fs := <[tmp_of fold := data]> (u1 s fold).
+  Definition u3 (s : fs) (fold data : bytes) : fs := <[fold := data]> (delete (tmp_of fold) (u2 s fold data)).
+  Definition u4 (s : fs) (fold fnew data : bytes) : fs := <[fnew := data]> (delete fold (u3 s fold data)).
+  Lemma update_states (s : fs) fold fnew data k : fold <> fnew ->
+    crash_at k s (acct_update fold fnew data) =
+      match k with
+      | O => s | 1 => u1 s fold | 2 => u2 s fold data | 3 => u3 s fold data | _ => u4 s fold fnew data
+      end%nat.
+  Proof.
+    intros Hne. unfold crash_at, acct_update, atomic_write.
+    rewrite bool_decide_eq_false_2 by exact Hne. cbn [app].
+    assert (A2 : apply s [ScCreate (tmp_of fold); ScWrite (tmp_of fold) data] = u2 s fold data).
+    { unfold apply. cbn [fold_left apply1]. rewrite lookup_insert. cbn [app]. unfold u2, u1.
+      now rewrite insert_insert. }
+    assert (A3 : apply s [ScCreate (tmp_of fold); ScWrite (tmp_of fold) data; ScRename (tmp_of fold) fold] = u3 s fold data).
+    { change (apply s [ScCreate (tmp_of fold); ScWrite (tmp_of fold) data; ScRename (tmp_of fold) fold])
+        with (apply1 (apply s [ScCreate (tmp_of fold); ScWrite (tmp_of fold) data]) (ScRename (tmp_of fold) fold)).
+      rewrite A2. cbn [apply1]. unfold u2 at 1. rewrite lookup_insert. reflexivity. }
+    assert (A4 : apply s [ScCreate (tmp_of fold); ScWrite (tmp_of fold) data; ScRename (tmp_of fold) fold; ScRename fold fnew]
+                 = u4 s fold fnew data).
+    { change (apply s [ScCreate (tmp_of fold); ScWrite (tmp_of fold) data; ScRename (tmp_of fold) fold; ScRename fold fnew])
+        with (apply1 (apply s [ScCreate (tmp_of fold); ScWrite (tmp_of fold) data; ScRename (tmp_of fold) fold]) (ScRename fold fnew)).
+      rewrite A3. cbn [apply1]. unfold u3 at 1. rewrite lookup_insert. reflexivity. }
+    destruct k as [|[|[|[|[|k]]]]]; cbn [firstn]; rewrite ?A2, ?A3, ?A4; reflexivity.
+  Qed.
+
+  (* what the loader's step does at every crash point of a login-changing update of a well-named directory: nothing,
+     except in the one state where the new record still lies under the old name - there it produces exactly the
+     state the completed update would have left *)
+  Theorem acct_update_recovered (s : fs) fold fnew old data knew k :
+    live fold = true -> live fnew = true -> live (tmp_of fold) = false ->
+    s !! fold = Some old -> fold <> fnew -> s !! fnew = None ->
+    key_of data = Some knew -> fnew = name_of knew -> key_of old <> None -> well_named s ->
+    let U := acct_update fold fnew data in
+    recover1 (crash_at k s U) fold = (if Nat.eqb k 3 then apply s U else crash_at k s U) /\
+    well_named (recover1 (crash_at k s U) fold).
+  Proof.
+    intros Lo Ln Lt Ho Hne Hn Kd Nn Ko W. cbn zeta. pose proof (tmp_neq fold) as Ht.
+    assert (Ltn : tmp_of fold <> fnew) by (intros E; rewrite E in Lt; congruence).
+    assert (Hfin : apply s (acct_update fold fnew data) = u4 s fold fnew data).
+    { pose proof (update_states s fold fnew data 4 Hne) as H4. unfold crash_at in H4.
+      rewrite firstn_all2 in H4; [exact H4|]. unfold acct_update, atomic_write.
+      rewrite bool_decide_eq_false_2 by exact Hne. cbn. lia. }
+    destruct (key_of old) as [ko|] eqn:Eko; [|congruence].
+    assert (Fo : fold = name_of ko) by (eapply W; eauto).
+    (* live files of the first three states are those of s *)
+    assert (E1 : forall f, live f = true -> u1 s fold !! f = s !! f).
+    { intros f Hf. unfold u1. rewrite lookup_insert_ne; auto. intros E; rewrite <- E in Hf; congruence. }
+    assert (E2 : forall f, live f = true -> u2 s fold data !! f = s !! f).
+    { intros f Hf. unfold u2. rewrite lookup_insert_ne; auto. intros E; rewrite <- E in Hf; congruence. }
+    assert (Wext : forall s', (forall f, live f = true -> s' !! f = s !! f) -> well_named s').
+    { intros s' Hs f c kk Hf Hc Hk. rewrite Hs in Hc by assumption. eapply W; eauto. }
+    assert (R0 : forall s', (forall f, live f = true -> s' !! f = s !! f) -> recover1 s' fold = s').
+    { intros s' Hs. unfold recover1. rewrite Hs by assumption. rewrite Ho, Eko.
+      rewrite bool_decide_eq_true_2 by exact Fo. reflexivity. }
+    assert (W4 : well_named (u4 s fold fnew data)).
+    { intros f c kk Hf Hc Hk. unfold u4 in Hc. destruct (decide (f = fnew)) as [->|Nf].
+      - rewrite lookup_insert in Hc. injection Hc as <-. rewrite Kd in Hk. injection Hk as <-. exact Nn.
+      - rewrite lookup_insert_ne in Hc by congruence.
+        destruct (decide (f = fold)) as [->|Nf2]; [now rewrite lookup_delete in Hc|].
+        rewrite lookup_delete_ne in Hc by congruence. unfold u3 in Hc.
+        rewrite lookup_insert_ne in Hc by congruence.
+        rewrite lookup_delete_ne in Hc by (intros E; rewrite <- E in Hf; congruence).
+        rewrite E2 in Hc by assumption. eapply W; eauto. }
+    rewrite (update_states s fold fnew data k Hne).
+    destruct k as [|[|[|[|k]]]]; cbn [Nat.eqb].
+    - rewrite (R0 s) by reflexivity. split; [reflexivity|exact W].
+    - rewrite (R0 _ E1). split; [reflexivity|exact (Wext _ E1)].
+    - rewrite (R0 _ E2). split; [reflexivity|exact (Wext _ E2)].
+    - (* the new record under the old name: the move is finished *)
+      assert (R3 : recover1 (u3 s fold data) fold = u4 s fold fnew data).
+      { unfold recover1. unfold u3 at 1. rewrite lookup_insert. rewrite Kd.
+        rewrite bool_decide_eq_false_2 by (rewrite <- Nn; exact Hne). rewrite <- Nn.
+        assert (Hf : u3 s fold data !! fnew = None).
+        { unfold u3. rewrite lookup_insert_ne by congruence. rewrite lookup_delete_ne by congruence.
+          rewrite E2 by assumption. exact Hn. }
+        rewrite Hf. reflexivity. }
+      rewrite R3, Hfin. split; [reflexivity|exact W4].
+    - assert (R4 : recover1 (u4 s fold fnew data) fold = u4 s fold fnew data).
+      { unfold recover1. unfold u4 at 1. rewrite lookup_insert_ne by congruence. now rewrite lookup_delete. }
+      destruct k; cbn [Nat.eqb]; rewrite R4; (split; [reflexivity|exact W4]).
+  Qed.
+
   (* DELETE is one call *)
   Theorem acct_delete_crash (s : fs) f k :
     crash_at k s (acct_delete f) = s \/ crash_at k s (acct_delete f) = apply s (acct_delete f).
